@@ -374,15 +374,14 @@ func checkCase(c Case) evid.Outcome {
 				return evid.Fail("leftover-not-a-piece", "%s %q won by %q: leftover parameter %s=%q is not a once-decoded piece of the path; all: %s", q.M, q.P, leaf.Route(), k, v, rt.Show(vals))
 			}
 		}
-		// the round trip is only meaningful when values cannot be mistaken for binds
-		roundTrip := true
+		// (a value that spells a bind of the route - "{b}" captured by {a} - is
+		// substituted like any other: what has been put in is not looked at again)
 		for k, v := range vals {
 			if bound[k] && strings.Contains(v, "{") {
-				roundTrip = false
-				out.Classes = append(out.Classes, "roundtrip-skipped")
+				out.Classes = append(out.Classes, "roundtrip-with-a-value-that-spells-a-bind")
 			}
 		}
-		if roundTrip && !urlOK {
+		if !urlOK {
 			return evid.Fail("roundtrip", "%s %q won by %q with params %s: URLPath gives %q, substituting the values back gives %q", q.M, q.P, leaf.Route(), rt.Show(vals), urlGot, firstRebuilt)
 		}
 		if leaf.Route() != d.Canon() {
